@@ -199,12 +199,16 @@ func (lit *levelIterator) Seek(id []byte) error {
 
 func (lit *levelIterator) SeekReverse(id []byte) error {
 	lit.forward = false
-	if lit.it.Seek(id) {
+	ok := lit.it.Seek(id)
+	if !ok {
+		//every key is below the request: the greatest of them is the last key
+		ok = lit.it.Last()
+	} else if bytes.Compare(id, lit.it.Key()) < 0 {
 		//Level iterator will land on the first value above the request
 		//if we're there, move once to get below start request
-		if bytes.Compare(id, lit.it.Key()) < 0 {
-			lit.it.Prev()
-		}
+		ok = lit.it.Prev()
+	}
+	if ok {
 		lit.key = copyBytes(lit.it.Key())
 		lit.value = copyBytes(lit.it.Value())
 		return nil
